@@ -25,9 +25,14 @@ def tok (ty : String) : P Item := fun ts => match ts with
   | t :: rest => if t.ty == ty then some (t, rest) else none
   | [] => none
 
-/-- `tok_eq(ty, val)` / `id_eq(val)` / `dt_sep(val)`: token of a type with exactly this text (case-sensitive) -/
+def asciiLower (c : Char) : Char := if 'A' ≤ c && c ≤ 'Z' then Char.ofNat (c.toNat + 32) else c
+
+/-- `str::eq_ignore_ascii_case` -/
+def eqIgnoreAsciiCase (a b : List Char) : Bool := a.map asciiLower == b.map asciiLower
+
+/-- `tok_eq(ty, val)` / `id_eq(val)` / `dt_sep(val)`: token of a type whose text equals `val` up to ASCII case -/
 def tokEq (ty : String) (val : String) : P Item := fun ts => match ts with
-  | t :: rest => if t.ty == ty && String.ofList t.text == val then some (t, rest) else none
+  | t :: rest => if t.ty == ty && eqIgnoreAsciiCase t.text val.toList then some (t, rest) else none
   | [] => none
 
 def idEq (val : String) : P Item := tokEq "Identifier" val
